@@ -236,7 +236,7 @@ OPAQUE_METHODS = {
     ('Logger', 'debug'): 'logging.debug', ('Logger', 'info'): 'logging.info',
     ('Logger', 'warning'): 'logging.warning', ('Logger', 'error'): 'logging.error',
     ('Logger', 'exception'): 'logging.error', ('Logger', 'log'): 'logging.info',
-    ('Logger', 'isEnabledFor'): 'logging.isEnabledFor', ('bytes', 'decode'): 'bytes.decode',
+    ('NocaseDict', 'values'): 'nocasedict.values', ('Logger', 'isEnabledFor'): 'logging.isEnabledFor', ('bytes', 'decode'): 'bytes.decode',
     ('Headers', 'get'): 'headers.get', ('File', 'read'): 'file.read', ('File', 'write'): 'file.write',
     ('File', 'flush'): 'file.write',
 }
@@ -1611,8 +1611,11 @@ def _chr(ex, fn, args, kw, node):
 
 @builtin('frozenset', 'set')
 def _frozenset(ex, fn, args, kw, node):
-    """A set with concrete elements (module constants such as frozenset('0123...'))."""
+    """set(): a symbolic set (members decided by the kind of the first element added);
+    set(iterable of constants): a concrete frozenset."""
     if not args:
+        if fn.name == 'set':
+            return ex.alloc(SetCell(None, None))
         return VPy(frozenset())
     items = ex.iter_concrete(args[0], node)
     if items is None:
@@ -1627,9 +1630,34 @@ def _frozenset(ex, fn, args, kw, node):
     return VPy(frozenset(vals))
 
 
-@builtin('os.path.dirname', 'os.path.basename', 'os.path.abspath', 'os.path.join', 'os.path.normpath')
-def _os_path(ex, fn, args, kw, node):
-    for a in args:
-        if not isinstance(ex.res(a), VStr):
-            ex.raise_('TypeError', node)
-    return VStr(z3.String(ex.fresh_name('path')))
+def set_key(ex, c, v, node):
+    v = ex.res(v)
+    if isinstance(v, VOpaque):
+        return 'absval', absval(v.t)
+    k = ex.kind_of(v)
+    return k, ex.flat(v, k)
+
+
+@builtin('set.add')
+def _set_add(ex, fn, args, kw, node):
+    p = fn.self_val
+    c = ex.cell(p)
+    k, t = set_key(ex, c, args[0], node)
+    if c.arr is None:
+        arr = z3.K(kind_sort(k), False)
+        kind = k
+    else:
+        arr, kind = c.arr, c.kind
+        if kind != k:
+            ex.limit('set with members of different kinds', node)
+    ex.setcell(p, SetCell(kind, z3.Store(arr, t, True)))
+    return NONE
+
+
+@builtin('nocasedict.values')
+def _nd_values(ex, fn, args, kw, node):
+    """values() of an opaque NocaseDict: a sequence of objects determined by the dictionary."""
+    d = fn.self_val
+    seq = z3.Function('nd_values', RefSort, z3.SeqSort(RefSort))(d.t)
+    elem = (ex.top_contract.kinds.get('nocasedict.values') if ex.top_contract is not None else None) or 'ref'
+    return ex.alloc(ListCell(seq, elem))
